@@ -192,6 +192,13 @@ def make_iter(ds, iface: str, split: str, opts: dict, process_record=None):
                                prefetch=opts.get("prefetch", 1),
                                file_parallelism=opts.get("fp", 2),
                                parallelism=opts.get("fp", 2), **kw)
+        # the same tf.data.Dataset object iterated before (a few elements
+        # taken, iterator dropped): every iteration starts a fresh stream
+        for pre in opts.get("tf_reiterate", ()):
+            earlier = iter(tfds.as_numpy_iterator())
+            for _ in range(pre):
+                next(earlier, None)
+            del earlier
         if batch <= 0:
             return tfds.as_numpy_iterator()
         return unbatch(tfds.as_numpy_iterator())
